@@ -25,7 +25,7 @@ def lin_projection(trace, job, keep=None):
                 op = SET_RENAME.get(op, op)
                 v = 1 if op in ("insert", "try_insert") else 0
             c = {"e": "call", "t": e["t"], "op": op, "k": e["k"], "tag": e.get("tag", 0), "v": v,
-                 "f": e.get("f", "") or "-"}
+                 "pl": e.get("pl", 0), "f": e.get("f", "") or "-"}
             pending[e["t"]] = c
             keys.add(e["k"])
             threads.add(e["t"])
@@ -39,7 +39,7 @@ def lin_projection(trace, job, keep=None):
                 ok = 1 - ok      # HashSet::insert returns "newly inserted"
             seen = e.get("seen", [])
             ev.append({"e": "ret", "t": e["t"], "ok": ok, "v": e.get("v", 0), "tag": e.get("tag", 0),
-                       "ni": e.get("ni", 0), "seen": seen[0] if seen else 0, "ncb": len(seen),
+                       "ni": e.get("ni", 0), "pl": e.get("pl", 0), "seen": seen[0] if seen else 0, "ncb": len(seen),
                        "panic": e.get("panic", 0)})
             pending[e["t"]] = None
     return {"id": trace["id"], "set": 1 if is_set else 0, "keys": sorted(keys), "threads": sorted(threads),
@@ -60,3 +60,56 @@ def nontrivial_lin(p):
         else:
             open_.pop(e["t"], None)
     return False
+
+
+RDEF = {"ok": 0, "v": 0, "tag": 0, "ni": 0, "seen": 0, "pl": 0, "n": 0, "empty": 0, "panic": 0}
+
+
+def seq_projection(trace, job, thread=None):
+    """Single-threaded run -> Trace_Seq input: one `op` event per call (with its logged result and
+    callback invocations) followed by the observation taken after it."""
+    is_set = job.get("kind") == "set"
+    ev = []
+    keys = set(job.get("finals", []))
+    cur = None
+    for e in trace["ev"]:
+        k = e.get("e")
+        if thread is not None and e.get("t") != thread and k in ("call", "ret", "pred", "cb", "obs"):
+            continue
+        if k == "call":
+            op = e["op"]
+            v = e.get("v", 0)
+            if is_set:
+                op = SET_RENAME.get(op, op)
+                if op in ("insert", "try_insert"):
+                    op, v = "insert", 1
+            cur = {"e": "op", "op": op, "k": e.get("k", 0), "tag": e.get("tag", 0), "v": v,
+                   "pl": 0 if is_set else e.get("pl", 0), "f": e.get("f", "") or "-", "n": e.get("n", 0),
+                   "keys": e.get("keys", []), "g": ("foreign_ref" if (job.get("pin") or op == "index") else "foreign") if e.get("g") == "foreign" else "own",
+                   "pa": e.get("pa", 0),
+                   "ncb": 0, "preds": [], "r": None}
+            keys.add(e.get("k", 0))
+            keys.update(e.get("keys", []))
+        elif k == "pred" and cur is not None:
+            cur["preds"].append([e["k"], e["v"], e["keep"]])
+        elif k == "cb" and cur is not None:
+            cur["ncb"] += 1
+        elif k == "ret" and cur is not None:
+            r = dict(RDEF)
+            for f in RDEF:
+                if f in e:
+                    r[f] = e[f]
+            seen = e.get("seen", [])
+            r["seen"] = seen[0] if seen else 0
+            if is_set and cur["op"] == "insert" and not r["panic"]:
+                r["ok"] = 1 - r["ok"]
+            r["items"] = e.get("items", [])
+            r["dbg"] = e.get("dbg", [])
+            cur["r"] = r
+            ev.append(cur)
+            cur = None
+        elif k == "obs":
+            o = e["o"]
+            ev.append({"e": "obs", "len": o["len"], "empty": o["empty"], "items": o["items"], "gets": o["gets"]})
+    keys.discard(0)
+    return {"id": trace["id"], "set": 1 if is_set else 0, "keys": sorted(keys), "ev": ev}
